@@ -286,6 +286,32 @@ def gen_random(rng, table, n_cases, have_zoneinfo):
     return out
 
 
+def gen_foldpairs(rng, tables, n_cases):
+    """Two AWARE datetimes carrying the same zoneinfo object (zoneinfo caches one object per key), in the repeated hour of a
+    fall-back transition of THAT zone, on opposite sides of the transition: the later instant has the smaller wall-clock
+    reading.  (Python compares aware datetimes that share their tzinfo by their wall-clock fields: whoever compares them
+    without converting to UTC first gets the order wrong.)  The stored value is older than its upstream by instants."""
+    zs = [(z, [(t, a, b) for t, a, b in tab.transitions() if b < a]) for z, tab in tables.items()]
+    zs = [(z, trs) for z, trs in zs if trs]
+    out = []
+    for _ in range(n_cases if zs else 0):
+        z, trs = rng.choice(zs)
+        t, a, b = rng.choice(trs)
+        gap = (a - b) * M
+        d1 = rng.randint(1, gap - 2)
+        d2 = rng.randint(1, gap - 1 - d1)
+        early, late = t * M - d1, t * M + d2          # wall(late) < wall(early)
+        rep = ["az", z]
+        kind = rng.choice(["store-store", "fresh"])
+        if kind == "store-store":
+            out.append({"fresh": None, "nodes": [{"preds": [], "kind": "s", "t": {"i": late, "rep": rep}},
+                                                 {"preds": [0], "kind": "n", "t": {"i": early, "rep": rep}}]})
+        else:
+            out.append({"fresh": {"i": late, "rep": rep},
+                        "nodes": [{"preds": [], "kind": "n", "t": {"i": early, "rep": rep}}]})
+    return out
+
+
 def gen_gap(rng, table, n_cases):
     """Naive wall readings inside spring-forward gaps (they denote no instant: model-vs-code only)."""
     gaps = [(t, a, b) for t, a, b in table.transitions() if b > a]
@@ -383,7 +409,8 @@ def run_exploration(ctx, tier, seed, zones):
             t = tables[z]
             work[z] = ([("matrix", c) for c in gen_matrix(rng, t, n_tr)]
                        + [("random", c) for c in gen_random(rng, t, n_rnd, have_zoneinfo)]
-                       + [("gap", c) for c in gen_gap(rng, t, n_gap)])
+                       + [("gap", c) for c in gen_gap(rng, t, n_gap)]
+                       + ([("random", c) for c in gen_foldpairs(rng, tables, max(4, n_rnd // 20))] if have_zoneinfo else []))
             rng_c = random.Random(f"C18-clock:{seed}:{z}")
             for kind, c in work[z]:
                 if kind != "gap":
